@@ -1970,13 +1970,13 @@ class CanMatrix(object):
             del self.ecu_defines[element]
 
         defines_to_delete = set()
+        all_signals = [signal for frame in self.frames for signal in frame.signals] + list(self.signals)
         for signal_define in self.signal_defines:
-            for frame in self.frames:
-                for signal in frame.signals:
-                    if signal_define in signal.attributes:
-                        break
-                else:
-                    defines_to_delete.add(signal_define)
+            for signal in all_signals:
+                if signal_define in signal.attributes:
+                    break
+            else:
+                defines_to_delete.add(signal_define)
         for element in defines_to_delete:
             del self.signal_defines[element]
 
